@@ -106,6 +106,13 @@ def judge(ctx, rng, label, code, env, nvariants):
             if base_fail[0] != fail[0] or d:
                 ctx.violation('C17|%s|failure-value-depends-on-annotations' % fail[0], '%r vs %r' % (base_fail, fail), vcase)
                 continue
+        if base_fail is not None and fail is not None and base_fail[0] == 'FAILWITH' and fail[0] == 'FAILWITH':
+            # what the caller gets for a FAILWITH is the text of the failed value
+            bt, vt = getattr(base_res.error, 'args', ())[-1:], getattr(res.error, 'args', ())[-1:]
+            ctx.count('failwith_texts_compared')
+            if bt != vt:
+                ctx.violation('C17|FAILWITH|failure-text-depends-on-annotations', 'plain %r, annotated %r' % (bt, vt), vcase)
+                continue
         ctx.count('variants_equal')
         for p_ in comb_feature(code):
             ctx.count('equal_with_' + p_)
@@ -124,7 +131,7 @@ def comb_programs(rng, n):
         idx = rng.randrange(k)
         nn = 2 * idx + 1 if idx < k - 1 else 2 * idx
         kind = rng.choice(['GET n', 'UPDATE n', 'UNPAIR n', 'PACK', 'COMPARE', 'PACK;UNPACK', 'CAR/CDR', 'nested', 'field-then-None', 'field-then-None',
-                           'field-then-wrap', 'field-then-wrap', 'rebuild-then-compare', 'rebuild-then-compare', 'APPLY-capture'])
+                           'field-then-wrap', 'field-then-wrap', 'rebuild-then-compare', 'rebuild-then-compare', 'APPLY-capture', 'FAILWITH-record'])
         if kind == 'GET n':
             code = [PUSH(t, v), I('GET', N(rng.choice([nn, rng.randint(0, 2 * k - 2)])))]
         elif kind == 'UPDATE n':
@@ -183,6 +190,8 @@ def comb_programs(rng, n):
                 code = [PUSH(T.set_(t3), [v3]), PUSH(t3, v3)] + rebuild + [I('MEM')]
             else:
                 code = [PUSH(T.map_(t3, T.NAT), [(v3, 7)]), PUSH(t3, v3)] + rebuild + [I('GET')]
+        elif kind == 'FAILWITH-record':
+            code = [PUSH(t, v)] + ([I('UNPAIR'), I('PAIR')] if rng.random() < 0.3 else []) + [I('FAILWITH')]
         elif kind == 'APPLY-capture':
             code = [I('LAMBDA', TY(T.pair(T.NAT, T.NAT)), TY(T.NAT), [I('UNPAIR'), I('ADD')]), PUSH(T.pair(T.NAT, T.STRING), (7, 'x')), rng.choice([I('CAR'), I('GET', N(1))]),
                     I('APPLY'), I('DUP'), I('PACK'), I('SWAP'), PUSH(T.NAT, 3), I('EXEC'), I('PAIR')]
